@@ -364,6 +364,88 @@ def shard_rules(seed, idx, n):
     return res
 
 
+class _Item:
+    """What verify_all_item_rules reads of a step or inspection."""
+    def __init__(self, name, rm, rp):
+        self.name, self.expected_materials, self.expected_products = name, rm, rp
+
+
+def gen_all_items(rng):
+    """Several items over one dictionary of links, each with a material and a product rule list: the two lists of one
+    item, and the lists of different items, are evaluated independently - each starts from all recorded artifacts of its
+    kind, whatever an earlier list consumed (paths recorded both as material and as product, CREATE / DELETE / MODIFY
+    after a list that consumed them, are drawn on purpose)."""
+    w = gen_world(rng)
+    names = [n for n, _l in w["links"]]
+    items = []
+    for n in rng.sample(names, rng.randrange(1, len(names) + 1)):
+        link = dict((a, b) for a, b in w["links"])[n]
+        both = sorted(set(p for p, _h in link["materials"]) & set(p for p, _h in link["products"]))
+        lists = []
+        for typ in ("materials", "products"):
+            present = [p for p, _h in link[typ]]
+            k = rng.randrange(0, 6)
+            rules = [gen_rule(rng, names, present, j == k - 1) for j in range(k)]
+            if both and rng.random() < 0.6:
+                # consume a shared path early in this list ...
+                rules.insert(0, [rng.choice(["ALLOW", "MODIFY", "ALLOW"]), rng.choice(both + ["*"])])
+            if rng.random() < 0.6:
+                # ... and ask in this list about what only a fresh queue still holds
+                rules += [[rng.choice(["CREATE", "DELETE", "MODIFY"]), rng.choice(["*"] + present[:2])], ["DISALLOW", rng.choice(["*"] + present[:2])]]
+            lists.append(rules)
+        items.append({"name": n, "materials": lists[0], "products": lists[1]})
+    return {"items": items, "links": w["links"]}
+
+
+def impl_all_items(case):
+    import in_toto.verifylib as vl
+    from in_toto.models.link import Link
+    from in_toto.exceptions import RuleVerificationError
+    links = {}
+    for n, l in case["links"]:
+        links[n] = Link(name=n, materials={p: dict(h) for p, h in l["materials"]},
+                        products={p: dict(h) for p, h in l["products"]})
+    items = [_Item(it["name"], [list(r) for r in it["materials"]], [list(r) for r in it["products"]]) for it in case["items"]]
+    try:
+        vl.verify_all_item_rules(items, links)
+        return "pass"
+    except RuleVerificationError:
+        return "RuleVerificationError"
+    except Exception as e:  # pylint: disable=broad-except
+        return type(e).__name__
+
+
+def shard_all_items(seed, idx, n):
+    res = core.Result()
+    rng = core.rng_for(seed, "c03", "all_items", idx)
+    cases = [gen_all_items(rng) for _ in range(n)]
+    model = core.driver().batch({"op": "all_item_rules", "items": c["items"], "links": c["links"]} for c in cases)
+    for c, m in zip(cases, model):
+        m = m.get("ok") or m.get("err")
+        i = impl_all_items(c)
+        # the documented semantics, list by list, each from a fresh queue
+        o, scope = "pass", True
+        for it in c["items"]:
+            for typ in ("materials", "products"):
+                r = oracle_item_rules({"name": it["name"], "type": typ, "rules": it[typ], "links": c["links"]})
+                if r is None:
+                    scope = False
+                elif "err" in r and o == "pass":
+                    o = r["err"]
+            if o != "pass":
+                break
+        nlists = sum(1 for it in c["items"] for typ in ("materials", "products") if it[typ])
+        res.case({"all_items": c, "impl": i, "model": m}, nlists >= 2, i == m, sample_cap=1)
+        res.count("family_all_items"); res.count("all_items_" + i)
+        if i != m:
+            res.fail("disagree", {"op": "all_item_rules", "world": c}, {"op": "all_item_rules", "impl": i, "model": m})
+        if scope and o != i and not (o != "pass" and i != "pass"):
+            res.fail("oracle", {"op": "all_item_rules", "world": c},
+                     {"why": "verify_all_item_rules differs from the documented rule semantics applied to each rule list on its own",
+                      "impl": i, "documented": o})
+    return res
+
+
 def gen_xrules(rng, names, fitting=()):
     """A rule list whose MATCH refers to any item of the layout: itself, an earlier one, a later one. `fitting`: the
     (kind, name) references that record the same artifacts (so that the list passes), chosen most of the time."""
@@ -464,6 +546,8 @@ def run(tier, seed):
         shards.append((shard_glob_random, (seed, i, ng)))
         shards.append((shard_rules, (seed, i, nr)))
     shards.append((shard_corpus, ()))
+    for i in range(8):
+        shards.append((shard_all_items, (seed, i, 150 if tier == "quick" else 2500)))
     for i in range(8):
         shards.append((shard_pipeline, (seed, i, 6 if tier == "quick" else 120)))
     res = core.parallel(_dispatch, shards)
